@@ -324,6 +324,13 @@ def dy(r, lo, hi, k=3):
     return r.randrange(int(lo * 2 ** k), int(hi * 2 ** k) + 1) / 2 ** k
 
 
+class TimesFile:
+    """readout times given through a file: the document holds the file name, the times are the file's content"""
+
+    def __init__(self, values, name):
+        self.values, self.name = list(values), name
+
+
 class Expr:
     """a range expression written as text in the document"""
 
@@ -363,8 +370,16 @@ def gen_readout(r):
     ro = {}
     t = gen_times(r)
     first = t[0] if isinstance(t, list) else (float(t.a) if isinstance(t, Expr) else float(t))
-    if r.random() < 0.85:
+    k = r.random()
+    if k < 0.75:
         ro["times"] = t
+    elif k < 0.87:
+        t0 = dy(r, 0.5, 3)
+        ts = [t0]
+        for _ in range(r.randrange(0, 4)):
+            ts.append(ts[-1] + dy(r, 0.25, 4))
+        ro["times_from_file"] = TimesFile(ts, "c12_times_%d.npy" % r.randrange(10 ** 6))
+        first = t0
     else:
         first = 1.0
     if r.random() < 0.5:
@@ -489,6 +504,48 @@ def gen_param(r, calibration):
     return p
 
 
+BUCKETS = ["detector.photon.array", "detector.charge.array", "detector.pixel.array", "detector.signal.array",
+           "detector.image.array"]
+FORMATS = ["fits", "npy", "txt", "csv", "png", "jpg"]
+DATA_KEY = {"exposure": "save_exposure_data", "observation": "save_observation_data",
+            "calibration": "save_calibration_data"}
+
+# constructor defaults of pyxel.calibration.Algorithm as documented (stopval is left out: None is stored as -inf)
+ALGO_DEFAULTS = dict(type="sade", generations=1, population_size=1, variant=2, variant_adptv=1, ftol=1e-06, xtol=1e-06,
+                     memory=False, cr=0.9, eta_c=1.0, m=0.02, param_m=1.0, param_s=2, crossover="exponential",
+                     mutation="polynomial", selection="tournament", nlopt_solver="neldermead", maxtime=0, maxeval=0,
+                     xtol_rel=1e-08, xtol_abs=0.0, ftol_rel=0.0, ftol_abs=0.0, replacement="best",
+                     nlopt_selection="best")
+
+
+def gen_outputs(r, kind):
+    o = {"output_folder": r.choice(["c12_out", "c12_out/sub", "out_" + str(r.randrange(9))])}
+    if r.random() < 0.5:
+        o["custom_dir_name"] = r.choice(["run_", "c12_", "x"])
+    if r.random() < 0.6:
+        names = r.sample(BUCKETS, r.randrange(1, 4))
+        o["save_data_to_file"] = [{n: r.sample(FORMATS, r.randrange(1, 3))} for n in names]
+    if r.random() < 0.3:
+        o[DATA_KEY[kind]] = [{"dataset": ["nc"]}] if kind != "calibration" else [{"dataset": ["nc"]}, {"logs": ["csv"]}]
+    return o
+
+
+def gen_algorithm_extras(r):
+    cand = dict(variant_adptv=lambda: r.choice([1, 2]), ftol=lambda: 2.0 ** -r.randrange(10, 30),
+                xtol=lambda: 2.0 ** -r.randrange(10, 30), memory=lambda: r.random() < 0.5, cr=lambda: dy(r, 0, 1),
+                eta_c=lambda: dy(r, 1, 8), m=lambda: dy(r, 0, 1, 5), param_m=lambda: dy(r, 1, 4),
+                param_s=lambda: r.randrange(2, 6), crossover=lambda: r.choice(["single", "exponential", "binomial", "sbx"]),
+                mutation=lambda: r.choice(["uniform", "gaussian", "polynomial"]),
+                selection=lambda: r.choice(["tournament", "truncated"]),
+                nlopt_solver=lambda: r.choice(["cobyla", "bobyqa", "neldermead", "sbplx"]),
+                maxtime=lambda: r.randrange(0, 100), maxeval=lambda: r.randrange(0, 1000),
+                xtol_rel=lambda: 2.0 ** -r.randrange(10, 40), xtol_abs=lambda: dy(r, 0, 1, 6),
+                ftol_rel=lambda: dy(r, 0, 1, 6), ftol_abs=lambda: dy(r, 0, 1, 6), stopval=lambda: dy(r, 0, 10),
+                replacement=lambda: r.choice(["best", "worst", "random"]),
+                nlopt_selection=lambda: r.choice(["best", "worst", "random"]))
+    return {k: f() for k, f in cand.items() if r.random() < 0.3}
+
+
 def gen_mode(r, kind, runnable):
     m = {}
     ro = gen_readout(r)
@@ -496,6 +553,10 @@ def gen_mode(r, kind, runnable):
         m["readout"] = ro
     if r.random() < 0.5:
         m["pipeline_seed"] = r.randrange(0, 10000)
+    if not runnable and r.random() < 0.5:
+        m["outputs"] = gen_outputs(r, kind)
+    if not runnable and kind != "calibration" and r.random() < 0.25 and "times_from_file" not in (ro or {}):
+        m["working_directory"] = r.choice(["c12_wd", "c12_wd/deeper"])
     if kind == "exposure":
         if r.random() < 0.4:
             m["result_type"] = r.choice(["all", "image", "signal", "pixel"])
@@ -522,6 +583,18 @@ def gen_mode(r, kind, runnable):
                   "parameters": [gen_param(r, True)]})
         if r.random() < 0.5:
             m["algorithm"]["variant"] = r.randrange(1, 10)
+        m["algorithm"].update(gen_algorithm_extras(r))
+        if r.random() < 0.4:
+            m["fitness_function"] = {"func": "verif_probes_c12.fitness",
+                                     "arguments": r.choice([{}, {"scale": dy(r, 1, 4)},
+                                                            {"scale": dy(r, 1, 4), "offset": r.randrange(5), "tag": "t"}])}
+        if r.random() < 0.3:
+            m["type_islands"] = r.choice(["multiprocessing", "multithreading"])
+        if r.random() < 0.3:
+            m["weights"] = [dy(r, 0.5, 4)]
+        if r.random() < 0.3:
+            m["result_input_arguments"] = [{"key": "pipeline.photon_collection.illumination.arguments.level",
+                                            "values": r.choice([[1, 2], [10, 20, 30], Expr(1, r.randrange(3, 6), 1)])}]
         for k, f in (("mode", lambda: r.choice(["pipeline", "single_model"])),
                      ("result_type", lambda: r.choice(["image", "signal", "pixel"])),
                      ("result_fit_range", lambda: [0, 2, 0, 3]), ("target_fit_range", lambda: [0, 2, 0, 3]),
@@ -545,6 +618,9 @@ def gen_settings_cases(ctx: Ctx, n: int, n_run: int):
         sec = gen_detector(r, det)
         if runnable:
             sec = complete_for_run(det, sec, r)
+        ch = sec.get("characteristics") or {}
+        if not runnable and ch.get("adc_voltage_range") and r.random() < 0.3:
+            ch["adc_voltage_range"] = list(reversed(ch["adc_voltage_range"]))   # the file's order is the setting
         doc = {kind: gen_mode(r, kind, runnable), det + "_detector": sec, "pipeline": gen_pipeline(r, runnable)}
         if runnable and kind == "observation":
             doc[kind].pop("with_dask", None)
@@ -552,14 +628,30 @@ def gen_settings_cases(ctx: Ctx, n: int, n_run: int):
         r.shuffle(items)
         case = dict(k="settings", doc=dict(items), run=bool(runnable), det=det, kind=kind)
         case["derive"] = gen_derive_ops(r, case)
+        case["sweeps"] = gen_sweep_ops(r, case)
         cases.append(case)
     return cases
+
+
+def collect_files(doc):
+    out = {}
+    if isinstance(doc, TimesFile):
+        out[doc.name] = doc.values
+    elif isinstance(doc, dict):
+        for v in doc.values():
+            out.update(collect_files(v))
+    elif isinstance(doc, list):
+        for v in doc:
+            out.update(collect_files(v))
+    return out
 
 
 def to_yaml_doc(doc):
     """replace Expr objects by their text"""
     if isinstance(doc, Expr):
         return doc.text()
+    if isinstance(doc, TimesFile):
+        return doc.name
     if isinstance(doc, dict):
         return {k: to_yaml_doc(v) for k, v in doc.items()}
     if isinstance(doc, list):
@@ -589,22 +681,41 @@ def flatten(case):
     m = doc[kind] or {}
     ent.append(("mode.kind", kind))
     for k, v in (m.get("readout") or {}).items():
-        ent.append((f"mode.readout.{k}", v))
+        if k == "times_from_file":
+            ent.append(("mode.readout.times", list(v.values)))     # the setting is the content of the file
+        else:
+            ent.append((f"mode.readout.{k}", v))
     dfl += [("mode.readout.times", [1]), ("mode.readout.start_time", 0), ("mode.readout.non_destructive", False),
-            ("mode.pipeline_seed", None), ("mode.result_type", "image" if kind == "calibration" else "all")]
+            ("mode.pipeline_seed", None), ("mode.result_type", "image" if kind == "calibration" else "all"),
+            ("mode.working_directory", None)]
+    if "outputs" in m:
+        o = m["outputs"]
+        ent.append(("mode.outputs.present", True))
+        for kk, vv in o.items():
+            ent.append((f"mode.outputs.{kk}", canon_save(vv) if kk.startswith("save_") else vv))
+        dfl += [("mode.outputs.custom_dir_name", ""), ("mode.outputs.save_data_to_file", [["detector.image.array", ["fits"]]]),
+                (f"mode.outputs.{DATA_KEY[kind]}", None)]
+    else:
+        dfl.append(("mode.outputs.present", False))
     for k, v in m.items():
-        if k in ("readout",):
+        if k in ("readout", "outputs"):
             continue
-        if k == "parameters":
-            ent.append(("mode.parameters.count", len(v)))
+        if k in ("parameters", "result_input_arguments"):
+            ent.append((f"mode.{k}.count", len(v)))
             for i, p in enumerate(v):
                 for kk, vv in p.items():
-                    ent.append((f"mode.parameters.{i}.{kk}", vv))
-                dfl += [(f"mode.parameters.{i}.enabled", True), (f"mode.parameters.{i}.logarithmic", False),
-                        (f"mode.parameters.{i}.boundaries", None)]
-        elif k in ("algorithm", "fitness_function"):
+                    ent.append((f"mode.{k}.{i}.{kk}", vv))
+                dfl += [(f"mode.{k}.{i}.enabled", True), (f"mode.{k}.{i}.logarithmic", False),
+                        (f"mode.{k}.{i}.boundaries", None)]
+        elif k == "algorithm":
             for kk, vv in v.items():
                 ent.append((f"mode.{k}.{kk}", vv))
+        elif k == "fitness_function":
+            ent.append(("mode.fitness_function.func", v["func"]))
+            if "arguments" in v:
+                ent.append(("mode.fitness_function.arguments.count", len(v["arguments"])))
+                for a, av in v["arguments"].items():
+                    ent.append((f"mode.fitness_function.arguments.{a}", av))
         elif k == "target_data_path":
             ent.append(("mode.target_data_path", list(v)))
         else:
@@ -614,8 +725,10 @@ def flatten(case):
     if kind == "calibration":
         dfl += [("mode.mode", "pipeline"), ("mode.result_fit_range", []), ("mode.target_fit_range", []),
                 ("mode.num_islands", 1), ("mode.num_evolutions", 1), ("mode.num_best_decisions", None),
-                ("mode.topology", "unconnected"), ("mode.algorithm.type", "sade"), ("mode.algorithm.generations", 1),
-                ("mode.algorithm.population_size", 1), ("mode.algorithm.variant", 2)]
+                ("mode.topology", "unconnected"), ("mode.type_islands", "multiprocessing"), ("mode.weights", None),
+                ("mode.weights_from_file", None), ("mode.result_input_arguments.count", 0),
+                ("mode.fitness_function.arguments.count", None)]
+        dfl += [(f"mode.algorithm.{a}", v) for a, v in ALGO_DEFAULTS.items()]
     p = doc.get("pipeline") or {}
     for g in PIPE_GROUPS:
         if g not in p or p[g] is None:
@@ -636,6 +749,13 @@ def flatten(case):
                     ent.append((f"{pre}.{kk}", vv))
             dfl += [(pre + ".enabled", True), (pre + ".arguments.count", 0)]
     return ent, dfl
+
+
+def canon_save(v):
+    """[{name: [formats]}, ...] -> [[name, [formats]], ...]  (the form the driver reads back)"""
+    if v is None:
+        return None
+    return [[k, list(f)] for d in v for k, f in d.items()]
 
 
 def cleaf(v) -> str:
@@ -704,13 +824,37 @@ def parse_details(text: str):
 # ------------------------------------------------------------------------------------------ derived readouts
 
 RO_KEYS = ["mode.readout.times", "mode.readout.start_time", "mode.readout.non_destructive"]
-DOP = {"replace": "DReplace", "setter": "DSetter", "copy": "DCopy"}
+DOP = {"replace": "DReplace", "setter": "DSetter", "copy": "DCopy", "sweep": "DSweep"}
+
+
+def gen_sweep_ops(r, case):
+    """points of a sweep over one detector setting (in-range dyadic values)"""
+    cands = [("detector.environment.temperature", dy(r, 60, 400)), ("detector.geometry.pixel_scale", dy(r, 0.5, 5)),
+             ("detector.geometry.total_thickness", dy(r, 1, 100)),
+             ("detector.characteristics.quantum_efficiency", dy(r, 0.125, 1)),
+             ("detector.characteristics.full_well_capacity", r.randrange(1000, 90000))]
+    if case["det"] != "apd":
+        cands += [("detector.characteristics.pre_amplification", dy(r, 1, 50)),
+                  ("detector.characteristics.adc_bit_resolution", r.randrange(8, 33))]
+    return [dict(key=k, value=v) for k, v in r.sample(cands, 2)]
+
+
+def sweep_rows(c, o):
+    rows = []
+    for op, d in zip(c.get("sweeps") or [], o.get("swept") or []):
+        keys = sorted(d["before"])
+        before = [(k, d["before"][k]) for k in keys]
+        obs = None if "settings" not in d else sorted(d["settings"].items())
+        rows.append((dict(op="sweep", changes={op["key"]: op["value"]}), before, [(op["key"], op["value"])], obs, d))
+        rows.append((dict(op="sweep", changes={}, of=dict(op="sweep", changes={op["key"]: op["value"]})), before, [],
+                     sorted(d["after"].items()), d))
+    return rows
 
 
 def readout_facts(case):
     """(first readout time, start_time, non_destructive) the document means"""
     ro = (case["doc"][case["kind"]] or {}).get("readout") or {}
-    t = ro.get("times", [1])
+    t = ro["times_from_file"].values if "times_from_file" in ro else ro.get("times", [1])
     first = t[0] if isinstance(t, list) else (float(t.a) if isinstance(t, Expr) else float(t))
     return float(first), float(ro.get("start_time", 0.0)), bool(ro.get("non_destructive", False))
 
@@ -797,12 +941,16 @@ def derive_violation(c, row) -> Violation:
     else:
         want = dict(before)
         want.update(dict(ch))
-        differs = sorted(k for k in RO_KEYS if plain(dict(obs)[k]) != plain(want[k]))
-        what = (f"{c['det']}/{c['kind']}: readout.{op['op']}({op['changes']}) on the loaded readout "
-                f"{ {k: plain(v) for k, v in before} } gives { {k: plain(v) for k, v in obs} }: {differs} differ from "
+        differs = sorted(k for k in want if plain(dict(obs).get(k, "<missing>")) != plain(want[k]))
+        what = (f"{c['det']}/{c['kind']}: {op['op']}({op['changes']}) on the loaded "
+                f"{'detector' if op['op'] == 'sweep' else 'readout'} "
+                f"{ {k: plain(v) for k, v in before if k in differs or op['op'] != 'sweep'} } gives "
+                f"{ {k: plain(v) for k, v in obs if k in differs or op['op'] != 'sweep'} }: {differs} differ from "
                 f"<unchanged settings kept, changed settings set>")
         sig = dict(clause="derived_keeps", op=op["op"], changed=changed, aspect="setting-lost")
-    return Violation(clause="derived_keeps", case=dict(jcase(c), derive=[of or op]), observed=d,
+    only = dict(derive=[of or op], sweeps=None) if (of or op)["op"] != "sweep" else \
+        dict(derive=None, sweeps=[dict(key=k, value=v) for k, v in (of or op)["changes"].items()])
+    return Violation(clause="derived_keeps", case=dict(jcase(c), **only), observed=d,
                      expected="a derived readout keeps every setting that was not changed and has the new value of "
                               "the changed ones; the loaded readout is left alone",
                      what=what, sig=sig)
@@ -811,7 +959,7 @@ def derive_violation(c, row) -> Violation:
 def run_derived(ctx: Ctx, pairs, tag="d"):
     rows = []
     for c, o in pairs:
-        for row in derive_rows(c, o):
+        for row in derive_rows(c, o) + sweep_rows(c, o):
             rows.append((c, row))
     if not rows:
         return [], []
@@ -982,7 +1130,8 @@ def run_keys(ctx: Ctx, cases):
 
 
 def run_settings(ctx: Ctx, cases, tag="s"):
-    payloads = [dict(k="settings", doc=to_yaml_doc(c["doc"]), run=c["run"], derive=c.get("derive")) for c in cases]
+    payloads = [dict(k="settings", doc=to_yaml_doc(c["doc"]), run=c["run"], derive=c.get("derive"),
+                     sweeps=c.get("sweeps"), files=collect_files(c["doc"])) for c in cases]
     obs = core.run_driver(ctx, "c12", payloads, workers=8)
     ctx.log("settings driver done")
     pairs = []
@@ -997,6 +1146,18 @@ def run_settings(ctx: Ctx, cases, tag="s"):
                 sig=dict(clause="valid_document_refused", det=c["det"], kind=c["kind"], exc=o.get("exc"))))
             continue
         pairs.append((c, o))
+        bd = o.get("built_diff") or {}
+        if bd.get("keys") or bd.get("raised"):
+            ctx.violations.append(Violation(
+                clause="loaded_equals_built", case=jcase(c), observed=bd,
+                expected="every setting of the loaded objects = the setting of the same objects built in Python",
+                what=(f"{c['det']}/{c['kind']}: the Python-built objects cannot be built: {bd.get('raised')}: {bd.get('msg')}"
+                      if bd.get("raised") else
+                      f"{c['det']}/{c['kind']}: settings {bd['keys'][:4]} of the loaded objects differ from the same objects "
+                      f"built in Python: loaded {json.dumps(bd.get('loaded'), default=str)[:200]}, built "
+                      f"{json.dumps(bd.get('built'), default=str)[:200]}"),
+                sig=dict(clause="loaded_equals_built",
+                         keys=sorted({key_class(k) for k in bd.get("keys", [])})[:3] or ["<raised>"])))
     per = 6
     files = {f"{tag}_{k // per:03d}": emit_settings_file(pairs[k:k + per]) for k in range(0, len(pairs), per)}
     ev = eval_files(ctx, files)
@@ -1031,7 +1192,8 @@ def run_settings(ctx: Ctx, cases, tag="s"):
 
 def jcase(c):
     return dict(k="settings", doc=to_yaml_doc(c["doc"]), run=c["run"], det=c["det"], kind=c["kind"],
-                exprs=collect_exprs(c["doc"]), derive=c.get("derive"))
+                exprs=collect_exprs(c["doc"]), derive=c.get("derive"), sweeps=c.get("sweeps"),
+                files=collect_files(c["doc"]))
 
 
 def collect_exprs(doc, path=""):
@@ -1047,14 +1209,17 @@ def collect_exprs(doc, path=""):
     return out
 
 
-def restore_exprs(doc, exprs, path=""):
+def restore_exprs(doc, exprs, path="", files=None):
+    files = files or {}
     if path in exprs:
         a, b, s = exprs[path]
         return Expr(Fraction(a), Fraction(b), Fraction(s))
+    if path.endswith("/times_from_file") and isinstance(doc, str) and doc in files:
+        return TimesFile(files[doc], doc)
     if isinstance(doc, dict):
-        return {k: restore_exprs(v, exprs, f"{path}/{k}") for k, v in doc.items()}
+        return {k: restore_exprs(v, exprs, f"{path}/{k}", files) for k, v in doc.items()}
     if isinstance(doc, list):
-        return [restore_exprs(v, exprs, f"{path}/{i}") for i, v in enumerate(doc)]
+        return [restore_exprs(v, exprs, f"{path}/{i}", files) for i, v in enumerate(doc)]
     return doc
 
 
@@ -1209,15 +1374,16 @@ def replay(ctx: Ctx, rp: dict) -> int:
         dask = bool(case["doc"]["observation"].get("with_dask"))
         bad = not (o.get("loaded") and o.get("ran") and o.get("same_built") and (o.get("same_points") or not dask))
     else:
-        c = dict(doc=restore_exprs(case["doc"], case.get("exprs", {})), run=case.get("run", False),
-                 det=case["det"], kind=case["kind"], derive=case.get("derive"))
-        o = core.run_driver(ctx, "c12", [dict(k="settings", doc=case["doc"], run=c["run"], derive=c["derive"])],
-                            workers=1)[0]
+        c = dict(doc=restore_exprs(case["doc"], case.get("exprs", {}), files=case.get("files")),
+                 run=case.get("run", False), det=case["det"], kind=case["kind"], derive=case.get("derive"),
+                 sweeps=case.get("sweeps"))
+        o = core.run_driver(ctx, "c12", [dict(k="settings", doc=case["doc"], run=c["run"], derive=c["derive"],
+                                              sweeps=c["sweeps"], files=case.get("files"))], workers=1)[0]
         print("implementation now returns:", json.dumps(o)[:1500])
         if not o.get("loaded"):
             bad = True
         elif rp.get("clause") == "derived_keeps":
-            rows = derive_rows(c, o)
+            rows = derive_rows(c, o) + sweep_rows(c, o)
             ok, ev, se = core.coq_eval(ctx, "replay", emit_derive_file(rows))
             idx = core.parse_int_list(ev[1]) if ok else []
             bad = ok and idx != []
